@@ -827,6 +827,39 @@ def m_extent( ctx ):
     if not updates and not cond_updates:
         res.bad( src, mb, 'merge branch', 'the running length is never extended when a range is merged' )
         return res
+    # by value: the statements of the merge branch ( and the locals computed ahead of it ) are evaluated for a grid of ( running range, merged
+    # range ) cells; the running range must afterwards reach exactly as far as the farther of the two ends - never shorter ( requested
+    # registers dropped ), never longer ( registers nobody asked for and nobody is within reach of )
+    from .fold import run_block, helper_calls
+    ADDR, CNT = [ e.id for e in loop.target.elts ]
+    mbp = src.parent.get( mb )
+    blk = next(( getattr( mbp, f_ ) for f_ in ( 'body', 'orelse' ) if mb in getattr( mbp, f_, [] )), [] )
+    pre = [ st_ for st_ in blk[:blk.index( mb )] if isinstance( st_, ast.Assign ) and all( isinstance( t_, ast.Name ) for t_ in st_.targets ) ] if blk else []
+    helpers = helper_calls( src.tree, ignore_calls=( 'log', ))
+    body = [ st_ for st_ in mb.body if not isinstance( st_, ast.Continue ) ]
+    wrong = None; cells = 0
+    try:
+        for b0 in ( 10, 49990, 40001 ):
+            for l0 in ( 1, 5, 10, 20 ):
+                for off in ( 0, 2, l0 - 1, l0, l0 + 1 ):
+                    for c0 in ( 1, 2, 5, 10, 30 ):
+                        a0 = b0 + off
+                        env = dict( helpers ); env.update( { base: b0, length: l0, ADDR: a0, CNT: c0, 'reach': 5, 'limit': None } )
+                        run_block( pre, env, ignore_calls=( 'log', ))
+                        out = run_block( body, env, ignore_calls=( 'log', ))
+                        cells += 1
+                        want = max( l0, a0 + c0 - b0 )
+                        if ( out.kind != 'fall' or env.get( base ) != b0 or env.get( length ) != want ) and wrong is None:
+                            wrong = ( b0, l0, a0, c0, env.get( base ), env.get( length ), want )
+    except NoFold as exc:
+        wrong = None; cells = 0
+        res.note( 'merge branch not evaluated by value ( %s ): decided by form' % exc )
+    if cells and wrong is not None:
+        res.bad( src, mb, 'merge: running ( %d, %d ) + merged ( %d, %d ) -> ( %r, %r )' % wrong[:6],
+                 'the range being built must afterwards be ( %d, %d ): it extends to the farther of the two ends - cut short ( at a 10000 boundary, or to the end of the later range ) it drops requested registers' % ( wrong[0], wrong[6] ))
+        return res
+    if cells:
+        res.ok( src, mb, 'merging extends the running range to the farther end, exactly ( %d cells )' % cells )
     for u in updates:
         if isinstance( u, ast.AugAssign ):
             res.bad( src, u, u, 'an increment of the running length by the new range over-extends on overlap and under-extends on gaps' ) \
@@ -1131,6 +1164,12 @@ def m_bank( ctx ):
     B, L, A, C = _merge_roles( fn )
     t0 = _merge_branch( fn, L ).test
     t = _inline_helpers( src, fn, t0 )
+    # locals computed just ahead of the merge test ( edge = ( base // 10000 + 1 ) * 10000 ) and decision helpers of the file take part in it
+    from .fold import run_block, helper_calls
+    helpers_ = helper_calls( src.tree, ignore_calls=( 'log', ))
+    mbp_ = src.parent.get( _merge_branch( fn, L ))
+    blk_ = next(( getattr( mbp_, f_ ) for f_ in ( 'body', 'orelse' ) if _merge_branch( fn, L ) in getattr( mbp_, f_, [] )), [] )
+    pre_ = [ st_ for st_ in blk_[:blk_.index( _merge_branch( fn, L ))] if isinstance( st_, ast.Assign ) and all( isinstance( t_, ast.Name ) for t_ in st_.targets ) ] if blk_ else []
     # ---- the merge condition, decided as a table: the test is evaluated for every cell of a grid of ( running range, next start, reach ) and
     # compared with what the property demands of a sweep over sorted ranges:
     #   the next range begins INSIDE the running one          -> merge, whatever the 10000-block ( else the output overlaps / is unsorted )
@@ -1164,10 +1203,14 @@ def m_bank( ctx ):
                         continue			# another 10000-block of the SAME bank ( Holding 40001-99999 ): the property leaves it open
                     want = overlap or ( same and addr_ < base_ + len_ + eff )
                     for lim_ in ( None, 5 ):		# the transfer limit splits what is emitted; it has no say in what merges
-                        env_ = { B: base_, L: len_, A: addr_, C: 1, RCH: rch_ }
+                        env_ = dict( helpers_ ); env_.update( { B: base_, L: len_, A: addr_, C: 1, RCH: rch_ } )
                         if 'limit' in RP:
                             env_['limit'] = lim_
-                        got = try_fold( t, env_, default=NoFold )
+                        try:
+                            run_block( pre_, env_, ignore_calls=( 'log', ))
+                            got = fold( t, env_ )
+                        except NoFold:
+                            got = NoFold
                         if got is NoFold:
                             raise AnalysisError( 'merge: merge condition cannot be evaluated: %s' % norm_text( t ))
                         cells += 1
